@@ -25,43 +25,70 @@ def parsePublish (fs : List String) : Option Publish :=
     | _, _, _, _, _, _, _, _ => none
   | _ => none
 
-/-- ops: `pref <user> <roles> <scope 0=access|1=contributed|2=specific> <topics> <units>`  → `ok`
+structure St where
+  nc : Option Nat := none       -- number of NotificationTopic.NEW_CONTRIBUTOR, sent by the harness (`config`)
+  db : DB := DB.empty
+  engine : EngineSt := ⟨0, [], [], false⟩
+
+/-- ops: `config <number of the NEW_CONTRIBUTOR topic>`                                  → `ok`   (first line of a case)
+         `pref <user> <roles> <scope 0=access|1=contributed|2=specific> <topics> <units>`  → `ok`
          `sub <user>`                                                                   → `id=<new row id>`
          `del <row id>`                                                                 → `ok`
          `pub <topic> <unit id> <required roles> <contributor ids> <contributor_id|-> <configured> <timestamp ms|-> <now s>`
                                                                                         → `P:<posted row ids, ascending>`
-         `pubmut …` (self-test mutant),  `topicprefs <topic>` → `U:<users whose preferences contain the topic>` -/
-def step (db : DB) (line : String) : DB × String :=
+         `pubmut …` (self-test mutant),  `topicprefs <topic>` → `U:<users whose preferences contain the topic>`
+         `engine <unit id> <required roles> <has run>`  (engine data with no contributors)  → `ok`
+         `act <user id|-> <user name> <configured> <now s>`  (save_method / cancel / force / command by that user)
+                                                                                        → `P:<posted row ids>`
+         `actmut …` (self-test mutant: notification built without contributor_id) -/
+def step (st : St) (line : String) : St × String :=
+  let db := st.db
   match fields line with
+  | ["config", n] =>
+    match n.toNat? with
+    | some n => ({ st with nc := some n }, "ok")
+    | none => (st, "bad-op")
   | ["pref", u, roles, sc, topics, units] =>
     match u.toNat?, natList roles, parseScope sc, natList topics, natList units with
     | some u, some roles, some sc, some topics, some units =>
-      (apply db (.pref ⟨u, roles, sc, topics, units⟩), "ok")
-    | _, _, _, _, _ => (db, "bad-op")
+      ({ st with db := apply db (.pref ⟨u, roles, sc, topics, units⟩) }, "ok")
+    | _, _, _, _, _ => (st, "bad-op")
   | ["sub", u] =>
     match u.toNat? with
     | some u =>
       let db' := apply db (.sub u)
-      (db', "id=" ++ toString (maxId db'.subs))
-    | none => (db, "bad-op")
+      ({ st with db := db' }, "id=" ++ toString (maxId db'.subs))
+    | none => (st, "bad-op")
   | ["del", i] =>
     match i.toNat? with
-    | some i => (apply db (.del i), "ok")
-    | none => (db, "bad-op")
+    | some i => ({ st with db := apply db (.del i) }, "ok")
+    | none => (st, "bad-op")
   | "pub" :: rest =>
-    match parsePublish rest with
-    | some p => (db, "P:" ++ showNatList (sortNat ((publish db p).map (·.id))))
-    | none => (db, "bad-op")
+    match st.nc, parsePublish rest with
+    | some nc, some p => (st, "P:" ++ showNatList (sortNat ((publish nc db p).map (·.id))))
+    | _, _ => (st, "bad-op")
   | "pubmut" :: rest =>
-    match parsePublish rest with
-    | some p => (db, "P:" ++ showNatList (sortNat ((publishMutant db p).map (·.id))))
-    | none => (db, "bad-op")
+    match st.nc, parsePublish rest with
+    | some nc, some p => (st, "P:" ++ showNatList (sortNat ((publishMutant nc db p).map (·.id))))
+    | _, _ => (st, "bad-op")
   | ["topicprefs", t] =>
     match t.toNat? with
-    | some t => (db, "U:" ++ showNatList (sortNat ((prefsForTopic db t).map (·.user))))
-    | none => (db, "bad-op")
-  | _ => (db, "bad-op")
+    | some t => (st, "U:" ++ showNatList (sortNat ((prefsForTopic db t).map (·.user))))
+    | none => (st, "bad-op")
+  | ["engine", uid, req, hasRun] =>
+    match uid.toNat?, natList req, parseBool hasRun with
+    | some uid, some req, some hasRun => ({ st with engine := ⟨uid, req, [], hasRun⟩ }, "ok")
+    | _, _, _ => (st, "bad-op")
+  | [op, cid, name, conf, now] =>
+    if op ≠ "act" ∧ op ≠ "actmut" then (st, "bad-op") else
+    match st.nc, optNat cid, name.toNat?, parseBool conf, now.toNat? with
+    | some nc, some cid, some name, some conf, some now =>
+      let (e', posted) := if op = "act" then contribute nc db st.engine ⟨cid, name⟩ ⟨conf, now⟩
+                          else contributeMutant nc db st.engine ⟨cid, name⟩ ⟨conf, now⟩
+      ({ st with engine := e' }, "P:" ++ showNatList (sortNat (posted.map (·.id))))
+    | _, _, _, _, _ => (st, "bad-op")
+  | _ => (st, "bad-op")
 
 end Driver.WebPush
 
-def main : IO Unit := Driver.runLoop OPM.WebPush.DB.empty Driver.WebPush.step
+def main : IO Unit := Driver.runLoop {} Driver.WebPush.step
